@@ -10,8 +10,14 @@ save/load through a scratch file) and, for a sample, through a real ClientSessio
 front of a scripted in-memory origin (the Cookie header actually sent is the
 observation).  After every action the fixed battery (host x path x scheme) of
 filter_cookies() answers is recorded; TLC (CookieStoreTrace) gives the verdict.
+Session level (mode "hops"): a real ClientSession on engine.clikit.ClientKit is driven through
+requests whose scripted peer redirects them (same origin / other scheme / other host, relative or
+absolute Location, with or without Set-Cookie on the 3xx and on the final response), with
+per-request cookies= and with jar changes (clock, clear_domain, other responses, save+load) while
+a hop waits for its response; the Cookie header of EVERY hop on the wire is judged against what
+the reference store attaches for that hop's URL at that moment.
 In the same TLC run a rejected execution is walked again with the named deviations of
-the spec (Dev_HostOnlyKey, Dev_StaleExpiry, Dev_PathAlias, Dev_DomainCase) enabled, only
+the spec (Dev_HostOnlyKey, Dev_StaleExpiry, Dev_PathAlias, Dev_DomainCase, Dev_EpochExpires, Dev_BadMaxAge) enabled, only
 to classify the failure: clause/signature say which deviation explains it, or none.
 """
 from __future__ import annotations
@@ -444,7 +450,7 @@ def _dev_subsets() -> List[Tuple[str, ...]]:
     return [t for t in out if all(d in STILL_PRESENT for d in t)]
 
 
-STILL_PRESENT = {"pathAlias", "epochExpires", "badMaxAge"}
+STILL_PRESENT = {"pathAlias"}
 
 
 def _unused() -> list:
@@ -661,8 +667,13 @@ def run(ctx: Ctx) -> None:
     ctx.rule = ("executions = TLC-simulated behaviours of CookieStoreMC (full lattice) replayed into a real CookieJar / "
                 "ClientSession + seeded random histories; after every action all 60 filter_cookies() answers "
                 "(6 hosts x 5 paths x 2 schemes; http/https, for a tenth of the random histories ws/wss) are judged by TLC against the RFC 6265 reference; distinct = "
-                "different stimulus sequences of >= 3 events")
+                "different stimulus sequences of >= 3 events; a third of the random histories are session-level: requests "
+                "of a real ClientSession with redirects, response cookies, cookies= and jar changes between hops, the "
+                "Cookie header of every hop on the wire judged for that hop's URL")
     ctx.assumptions = [
+        "session level: origin = (scheme, host) (default ports only); per-request cookies= override the jar per name and "
+        "are dropped for good when a redirect leaves the origin; one Set-Cookie per response; GET requests; the "
+        "peer's responses arrive when the history says so (jar changes happen while a hop waits)",
         "reference constants = documented aiohttp behaviour: unsafe=False drops cookies from/to IP hosts; no "
         "public-suffix list; a Domain attribute with a trailing dot is ignored (cookie becomes host-only); the shared "
         "('','') bucket (update_cookies without URL) is outside the histories",
